@@ -451,6 +451,26 @@ class SymWorld(World):
             else:
                 self._query(nm, z3.Not(z3.And(core.zb(c1), core.zb(c2))))
 
+    def ob_concrete(self, name, cond_fn):
+        """An obligation that only the concrete run on the real code can evaluate (e.g. a numpy dtype): skipped here,
+        checked on every replay / validation run."""
+        self._record(name, 'unsat-concrete-only')
+
+    def std_normal(self, seed, call, shape):
+        from . import stubs
+        g = stubs.Generator(seed)
+        g.calls = call
+        return g.standard_normal(shape)
+
+    def poisson_draw(self, seed, call, lam):
+        from . import stubs
+        g = stubs.Generator(seed)
+        g.calls = call
+        return g._arr('poisson', getattr(lam, 'shape', ()), 'I', {'nonneg': True}, lambda z: [z >= 0])
+
+    def rng_events(self):
+        return [e for e in core.ctx().events if e and e[0] == 'rng']
+
     def ob_fail(self, name, detail=None):
         """An outcome that violates the property on this path whatever the values (e.g. an exception)."""
         c = core.ctx()
@@ -617,6 +637,22 @@ class ConcWorld(World):
             self.got[nm] = a
             ok = abs(a - b) <= tol * (1 + 1e-6) + 1e-12
             self._record(nm, 'ok' if ok else 'fail', None if ok else {'got': repr(a), 'want': repr(b)})
+
+    def ob_concrete(self, name, cond_fn):
+        ok = bool(cond_fn())
+        self._record(name, 'ok' if ok else 'fail-concrete-only')
+
+    def std_normal(self, seed, call, shape):
+        g = rnp.random.default_rng(seed)
+        for _ in range(call):
+            g.standard_normal(shape)
+        return g.standard_normal(shape)
+
+    def poisson_draw(self, seed, call, lam):
+        return rnp.random.default_rng(seed).poisson(lam)
+
+    def rng_events(self):
+        return []
 
     def ob_fail(self, name, detail=None):
         self._record(name, 'fail', detail)
